@@ -3,6 +3,7 @@ package c07
 import (
 	"bytes"
 	"context"
+	"flag"
 	"fmt"
 	"os"
 	"path/filepath"
@@ -14,7 +15,6 @@ import (
 
 	"github.com/cossacklabs/acra/keystore"
 	"github.com/cossacklabs/acra/keystore/filesystem"
-	kv2 "github.com/cossacklabs/acra/keystore/v2/keystore"
 	v2api "github.com/cossacklabs/acra/keystore/v2/keystore/api"
 	"github.com/cossacklabs/acra/keystore/v2/keystore/filesystem/backend"
 	backendapi "github.com/cossacklabs/acra/keystore/v2/keystore/filesystem/backend/api"
@@ -23,13 +23,13 @@ import (
 	"verif/internal/hx"
 )
 
-// ConfCase: one hostile identity / key path fed to every public operation of one target.
+// ConfCase: hostile identities / key paths, each fed to every public operation of one target.
 type ConfCase struct {
 	Target string `json:"target"` // v1 | v2/dir | v2/mem | backend/dir | backend/mem
-	// Path is the hostile client id (keystores) or key path (back ends). The token <ABS> stands for the
-	// absolute path of the canary directory of the case's sandbox.
-	Path  string `json:"path"`
-	Class string `json:"class"` // generator class, for the histogram
+	// Paths are the hostile client ids (keystores) or key paths (back ends), tried one after the other
+	// in the same sandbox. The token <ABS> stands for the absolute path of the sandbox's canary directory.
+	Paths   []string `json:"paths"`
+	Classes []string `json:"classes,omitempty"` // generator classes of the paths, for the histogram
 }
 
 var confTargets = []string{"v1", "v2/dir", "v2/mem", "backend/dir", "backend/mem"}
@@ -81,8 +81,14 @@ func genHostile(t *rapid.T) (string, string) {
 }
 
 func genConfCase(t *rapid.T) ConfCase {
-	c := ConfCase{Target: rapid.SampledFrom(confTargets).Draw(t, "target")}
-	c.Path, c.Class = genHostile(t)
+	// the directory back end syncs every write to disk: the v2 keystore on it gets fewer cases
+	c := ConfCase{Target: rapid.SampledFrom([]string{"v1", "v1", "v1", "backend/dir", "backend/dir", "v2/dir", "v2/mem", "backend/mem"}).Draw(t, "target")}
+	n := rapid.IntRange(1, 3).Draw(t, "npaths")
+	for i := 0; i < n; i++ {
+		p, cl := genHostile(t)
+		c.Paths = append(c.Paths, p)
+		c.Classes = append(c.Classes, cl)
+	}
 	return c
 }
 
@@ -115,6 +121,9 @@ func newSandbox() (*sandbox, error) {
 const canaryContent = "C07 CANARY: this file lives outside the keystore root"
 
 func (s *sandbox) close() {
+	if os.RemoveAll(s.top) == nil {
+		return
+	}
 	// directories made unreadable by the code under test must not survive
 	filepath.Walk(s.top, func(p string, info os.FileInfo, err error) error {
 		if err == nil && info.IsDir() {
@@ -126,7 +135,9 @@ func (s *sandbox) close() {
 }
 
 // inside tells whether the cleaned absolute path p lies inside dir (or is dir).
-func inside(dir, p string) bool { return p == dir || strings.HasPrefix(p, dir+string(os.PathSeparator)) }
+func inside(dir, p string) bool {
+	return p == dir || strings.HasPrefix(p, dir+string(os.PathSeparator))
+}
 
 // outsideChanges lists what changed in the sandbox outside the keystore root.
 func (s *sandbox) outsideChanges(before, after map[string]entry) []string {
@@ -156,6 +167,17 @@ func (s *sandbox) plant(loc string, content []byte) bool {
 type op struct {
 	name string
 	f    func(p string) ([][]byte, error)
+}
+
+// opSuffix: these back-end operations address p+suffix (for the lexical does-it-leave-the-root test).
+var opSuffix = map[string]string{"RenameNX(to)": "-nx", "Put(.new)": ".keyring.new"}
+
+// lastOfPhase: the operations run in phases (reads, destructions, generators, second round); the
+// fast pass takes a snapshot at the end of every phase only.
+var lastOfPhase = map[string]bool{
+	"GetHMACSecretKey": true, "DestroyHmacSecretKey": true, "SaveDataEncryptionKeys": true,
+	"Get": true, "Rename(from)": true, "Get#2": true, "RenameNX(to)": true,
+	"KeyBackuper.Export(ids)": true, "ExportKeyRings": true,
 }
 
 func one(b []byte, err error) ([][]byte, error) {
@@ -242,12 +264,13 @@ type v2Store interface {
 type target struct {
 	ops     []op
 	close   func()
-	planted [][]byte // contents planted outside the root that no operation may return
-	dirBE   bool     // directory back end addressed directly: an escaping path must be refused with an error
+	plant   func(p string) // plants, outside the root, what a target without containment would find for p
+	planted [][]byte       // contents planted outside the root that no operation may return
+	dirBE   bool           // directory back end addressed directly: an escaping path must be refused with an error
 }
 
-func openTarget(c ConfCase, s *sandbox, p string) (*target, error) {
-	t := &target{close: func() {}}
+func openTarget(c ConfCase, s *sandbox) (*target, error) {
+	t := &target{close: func() {}, plant: func(string) {}}
 	switch c.Target {
 	case "v1":
 		ks, err := filesystem.NewCustomFilesystemKeyStore().KeyDirectory(s.root).Encryptor(fix.V1Encryptor()).CacheSize(keystore.WithoutCache).Build()
@@ -256,31 +279,36 @@ func openTarget(c ConfCase, s *sandbox, p string) (*target, error) {
 		}
 		// key files a v1 keystore without containment would find for this id outside the root
 		enc := fix.V1Encryptor()
-		for _, x := range []struct {
-			suffix  string
-			purpose keystore.KeyPurpose
-			pair    bool
-		}{{"_storage", keystore.PurposeStorageClientPrivateKey, true}, {"_storage_sym", keystore.PurposeStorageClientSymmetricKey, false},
-			{"_hmac", keystore.PurposeSearchHMAC, false}, {"_server", keystore.PurposeLegacy, true}} {
-			secret := bytes.Repeat([]byte{0xC7}, 32)
-			copy(secret, "planted"+x.suffix)
-			var pub []byte
-			if x.pair {
-				kp, err := keys.New(keys.TypeEC)
+		t.plant = func(p string) {
+			for _, x := range []struct {
+				suffix  string
+				purpose keystore.KeyPurpose
+				pair    bool
+			}{{"_storage", keystore.PurposeStorageClientPrivateKey, true}, {"_storage_sym", keystore.PurposeStorageClientSymmetricKey, false},
+				{"_hmac", keystore.PurposeSearchHMAC, false}, {"_server", keystore.PurposeLegacy, true}} {
+				if loc := filepath.Clean(s.root + "/" + p + x.suffix); inside(s.root, loc) || !inside(s.top, loc) {
+					continue // nothing to plant: the name stays inside the root
+				}
+				secret := bytes.Repeat([]byte{0xC7}, 32)
+				copy(secret, "planted"+x.suffix)
+				var pub []byte
+				if x.pair {
+					kp, err := keys.New(keys.TypeEC)
+					if err != nil {
+						continue
+					}
+					secret, pub = kp.Private.Value, kp.Public.Value
+				}
+				blob, err := enc.Encrypt(context.Background(), secret, keystore.NewClientIDKeyContext(x.purpose, []byte(p)))
 				if err != nil {
 					continue
 				}
-				secret, pub = kp.Private.Value, kp.Public.Value
-			}
-			blob, err := enc.Encrypt(context.Background(), secret, keystore.NewClientIDKeyContext(x.purpose, []byte(p)))
-			if err != nil {
-				continue
-			}
-			if s.plant(s.root+"/"+p+x.suffix, blob) {
-				t.planted = append(t.planted, cp(secret))
-			}
-			if pub != nil && s.plant(s.root+"/"+p+x.suffix+".pub", pub) {
-				t.planted = append(t.planted, cp(pub))
+				if s.plant(s.root+"/"+p+x.suffix, blob) {
+					t.planted = append(t.planted, cp(secret))
+				}
+				if pub != nil && s.plant(s.root+"/"+p+x.suffix+".pub", pub) {
+					t.planted = append(t.planted, cp(pub))
+				}
 			}
 		}
 		t.ops = serverOps(ks)
@@ -337,7 +365,6 @@ func openTarget(c ConfCase, s *sandbox, p string) (*target, error) {
 			}},
 			op{"ExportKeyRings#2", func(p string) ([][]byte, error) { _, err := exportRingsV2(ks, []string{p}); return nil, err }},
 		)
-		_ = kv2.ErrUnknownPurpose
 		return t, nil
 	case "backend/dir", "backend/mem":
 		var b backendapi.Backend
@@ -349,10 +376,12 @@ func openTarget(c ConfCase, s *sandbox, p string) (*target, error) {
 			b = d
 			t.dirBE = true
 			// what a directory back end without containment would find for this path outside the root
-			norm := strings.NewReplacer("\\", "/").Replace(p)
-			content := []byte(canaryContent + " (planted for the path)")
-			if s.plant(s.root+"/"+norm, content) {
-				t.planted = append(t.planted, content)
+			t.plant = func(p string) {
+				norm := strings.NewReplacer("\\", "/").Replace(p)
+				content := []byte(canaryContent + " (planted for the path)")
+				if s.plant(s.root+"/"+norm, content) {
+					t.planted = append(t.planted, content)
+				}
 			}
 		} else {
 			b = backend.NewInMemory()
@@ -390,8 +419,8 @@ func openTarget(c ConfCase, s *sandbox, p string) (*target, error) {
 // lexicallyEscapes tells whether a back-end key path, resolved lexically below a root, leaves it.
 func lexicallyEscapes(p string) bool {
 	norm := strings.NewReplacer("\\", "/").Replace(p)
-	full := filepath.Clean("/R/" + norm)
-	return !inside("/R", full)
+	full := filepath.Clean("/sandbox/l1/l2/root/" + norm) // the same names as in the sandbox: "../root/x" does not escape
+	return !inside("/sandbox/l1/l2/root", full)
 }
 
 type confInfo struct {
@@ -402,13 +431,29 @@ type confInfo struct {
 // CheckConfinement feeds the path to every operation of the target inside a fresh sandbox. After
 // every operation nothing outside the keystore root may have been created, changed or removed, no
 // operation may return what was planted outside the root, and a directory back end must refuse a
-// path that leaves the root.
+// path that leaves the root. A fast pass compares sandbox snapshots (names, modes, sizes, times) at
+// the end of every phase of operations; if it finds anything, the case is run again in a fresh
+// sandbox with a full snapshot (content hashes) after every single operation, and that run decides.
 func CheckConfinement(c ConfCase) (hx.Vs, *confInfo) {
+	vs, info := checkConfinement(c, false)
+	if len(vs) > 0 {
+		vs2, info2 := checkConfinement(c, true)
+		if len(vs2) > 0 {
+			return vs2, info2
+		}
+	}
+	return vs, info
+}
+
+func checkConfinement(c ConfCase, slow bool) (hx.Vs, *confInfo) {
 	var vs hx.Vs
 	info := &confInfo{}
-	if countDotDot(c.Path) > maxDotDot {
-		vs.Add("harness:path", "path with more than %d '..' components would leave the sandbox of a keystore without containment", maxDotDot)
-		return vs, info
+	fix.Quiet()
+	for _, p := range c.Paths {
+		if countDotDot(p) > maxDotDot {
+			vs.Add("harness:path", "path with more than %d '..' components would leave the sandbox of a keystore without containment", maxDotDot)
+			return vs, info
+		}
 	}
 	s, err := newSandbox()
 	if err != nil {
@@ -416,10 +461,8 @@ func CheckConfinement(c ConfCase) (hx.Vs, *confInfo) {
 		return vs, info
 	}
 	defer s.close()
-	p := strings.ReplaceAll(c.Path, "<ABS>", s.canary)
-	info.nontrivial = strings.ContainsAny(p, "/\\") || strings.Contains(p, "..")
 	var t *target
-	if hx.Guard(&vs, "open/"+c.Target, func() { t, err = openTarget(c, s, p) }) {
+	if hx.Guard(&vs, "open/"+c.Target, func() { t, err = openTarget(c, s) }) {
 		return vs, info
 	}
 	if err != nil {
@@ -427,11 +470,6 @@ func CheckConfinement(c ConfCase) (hx.Vs, *confInfo) {
 		return vs, info
 	}
 	defer t.close()
-	info.planted = len(t.planted)
-	shown := fmt.Sprintf("%q", c.Path)
-	if len(shown) > 80 {
-		shown = fmt.Sprintf("%q…(%d bytes)", c.Path[:60], len(c.Path))
-	}
 	seen := map[string]bool{}
 	add := func(sig, format string, args ...any) {
 		if !seen[sig] {
@@ -439,48 +477,66 @@ func CheckConfinement(c ConfCase) (hx.Vs, *confInfo) {
 			vs.Add(sig, format, args...)
 		}
 	}
-	before := snapshot(s.top)
-	for _, o := range t.ops {
-		var out [][]byte
-		var oerr error
-		if hx.Guard(&vs, o.name+"/"+c.Target, func() { out, oerr = o.f(p) }) {
-			break
+	for _, path := range c.Paths {
+		p := strings.ReplaceAll(path, "<ABS>", s.canary)
+		if strings.ContainsAny(p, "/\\") || strings.Contains(p, "..") {
+			info.nontrivial = true
 		}
-		info.ops++
-		if oerr != nil {
-			info.errors++
+		t.plant(p)
+		info.planted = len(t.planted)
+		shown := fmt.Sprintf("%q", path)
+		if len(shown) > 80 {
+			shown = fmt.Sprintf("%q…(%d bytes)", path[:60], len(path))
 		}
-		after := snapshot(s.top)
-		if ch := s.outsideChanges(before, after); len(ch) > 0 {
-			if len(ch) > 4 {
-				ch = append(ch[:4], fmt.Sprintf("… %d more", len(ch)-4))
+		before := snapshot(s.top, slow)
+		for i, o := range t.ops {
+			var out [][]byte
+			var oerr error
+			if hx.Guard(&vs, o.name+"/"+c.Target, func() { out, oerr = o.f(p) }) {
+				return vs, info
 			}
-			add("escape:"+c.Target+":"+o.name, "%s: %s(%s) returned %v and touched paths outside the keystore root <sandbox>/l1/l2/root: %s", c.Target, o.name, shown, errs(oerr), clean(strings.Join(ch, ", ")))
-		}
-		for _, v := range out {
-			for _, pl := range t.planted {
-				if len(v) > 0 && bytes.Equal(v, pl) {
-					add("read-outside-root:"+c.Target+":"+o.name, "%s: %s(%s) returned data planted outside the keystore root (err %v)", c.Target, o.name, shown, errs(oerr))
+			info.ops++
+			if oerr != nil {
+				info.errors++
+			}
+			if slow || lastOfPhase[o.name] || i == len(t.ops)-1 {
+				after := snapshot(s.top, slow)
+				if ch := s.outsideChanges(before, after); len(ch) > 0 {
+					if len(ch) > 4 {
+						ch = append(ch[:4], fmt.Sprintf("… %d more", len(ch)-4))
+					}
+					add("escape:"+c.Target+":"+o.name, "%s: %s(%s) returned %v and touched paths outside the keystore root <sandbox>/l1/l2/root: %s", c.Target, o.name, shown, errs(oerr), clean(strings.Join(ch, ", ")))
+				}
+				before = after
+			}
+			for _, v := range out {
+				for _, pl := range t.planted {
+					if len(v) > 0 && bytes.Equal(v, pl) {
+						add("read-outside-root:"+c.Target+":"+o.name, "%s: %s(%s) returned data planted outside the keystore root (err %v)", c.Target, o.name, shown, errs(oerr))
+					}
 				}
 			}
+			if t.dirBE && oerr == nil && lexicallyEscapes(p+opSuffix[o.name]) && o.name != "ListAll" {
+				add("escaping-path-accepted:"+c.Target+":"+o.name, "%s: %s(%s) succeeded although the path leaves the root", c.Target, o.name, shown)
+			}
 		}
-		if t.dirBE && oerr == nil && lexicallyEscapes(p) && o.name != "ListAll" {
-			add("escaping-path-accepted:"+c.Target+":"+o.name, "%s: %s(%s) succeeded although the path leaves the root", c.Target, o.name, shown)
-		}
-		before = after
 	}
 	return vs, info
 }
 
-// TestConfinement: quick 4 shards x 500 = 2000 hostile paths, each fed to every operation of its target.
+// TestConfinement: quick 3 shards x 330 cases x 1-3 paths = about 2000 hostile paths, each fed to every operation of its target.
 func TestConfinement(t *testing.T) {
 	const name = "TestConfinement"
 	R.Rule(name, "hostile client ids / key paths (.. components incl. ones aimed at a sibling canary directory, separators, backslashes, NUL, dot names, absolute paths, over-long names, deep paths, empty, plus valid controls) x target (v1 keystore, v2 keystore on the directory and in-memory back ends, the two back ends directly); the path is fed to every public operation of the target (reads, generators, SaveDataEncryptionKeys, destroy current/rotated, v1 legacy generators and export by id, v2 OpenKeyRing/RW/AddKey/Describe/ExportKeyRings, back-end Get/Put/Rename/RenameNX/ListAll) inside a sandbox <tmp>/case/l1/l2/root with a sibling canary directory; key files / data a keystore without containment would find for that path are planted outside the root. After every operation: the snapshot of the whole sandbox differs only inside the root, nothing planted outside is returned, and the directory back end refuses a path that lexically leaves the root. Non-trivial = the path contains a separator or '..'")
-	hx.Checks(500, 5000)
+	hx.Checks(330, 3000)
+	flag.Set("rapid.shrinktime", "10s") // cases are small; every evaluation builds a keystore
 	rapid.Check(t, func(rt *rapid.T) {
 		c := genConfCase(rt)
 		vs, info := CheckConfinement(c)
-		cl := []string{"target:" + c.Target, "class:" + c.Class}
+		cl := []string{"target:" + c.Target}
+		for _, k := range c.Classes {
+			cl = append(cl, "class:"+k)
+		}
 		if info.planted > 0 {
 			cl = append(cl, "planted-outside")
 		}
@@ -504,7 +560,7 @@ func FuzzBackendPath(f *testing.F) {
 			p = "<ABS>" + p
 		}
 		for _, target := range []string{"backend/dir", "backend/mem"} {
-			vs, _ := CheckConfinement(ConfCase{Target: target, Path: p, Class: "fuzz"})
+			vs, _ := CheckConfinement(ConfCase{Target: target, Paths: []string{p}})
 			for _, v := range vs {
 				if R.IsKnown(v.Sig) {
 					continue
